@@ -54,6 +54,20 @@ type evaluator struct {
 	unspec   string
 	depth    int
 	discard  int
+	esc      func(string) string            // the Set's escaper (nil: none)
+	writers  map[string]func(string) string // SafeWriters by name
+}
+
+// wv writes a rendered value: through the named SafeWriter, else through the Set's escaper.
+func (ev *evaluator) wv(s, writer string) {
+	if writer != "" {
+		if f := ev.writers[writer]; f != nil {
+			s = f(s)
+		}
+	} else if ev.esc != nil {
+		s = ev.esc(s)
+	}
+	ev.w(s)
 }
 
 func (ev *evaluator) w(s string) {
